@@ -262,6 +262,8 @@ C06_DeviationSilent(B, k) ==
   LET h == H(B, k) IN
   \A i \in Idx(h, LAMBDA x : x.e = "rx" /\ Has(x.f, "unexpected")) \cup Idx(h, IsBadFrame) :
      (\A j \in Txs(B, k) : j < i) /\ B[k].result \in {"Err","Panic","running"}
+     \* ... and it ENDS it: the handler does not carry on waiting as if the packet had not been sent
+     /\ (Has(h[i].f, "unexpected") => ~B[k].hang)
 
 C06(B, k) == /\ C06_Order(B, k) /\ C06_NothingGarbled(B, k) /\ C06_CookieRequestKeys(B, k)
              /\ C06_SuccessAfterHonestResponse(B, k) /\ C06_RoutingAfterClientInfo(B, k)
